@@ -98,8 +98,15 @@ ServerPush(c) ==
 
 \* the server decides to close a connection after what it has planned so far (idle timeout, restart, ...)
 ServerClose(c) ==
+  /\ cst[c] \in {"idle", "busy"}
   /\ ~\E k \in 1..Len(srvq[c]) : srvq[c][k] = EOF
   /\ ~\E k \in 1..Len(wire[c]) : wire[c][k] = EOF
+  /\ srvq' = [srvq EXCEPT ![c] = Append(@, EOF)]
+  /\ UNCHANGED <<cst, wire, pc, conn, mode, need, rclose, got, res, sends>>
+
+\* ... or one the client has already closed (nobody will ever read it: not part of Next, traces only)
+ServerCloseLate(c) ==
+  /\ cst[c] \in {"none", "closed"}
   /\ srvq' = [srvq EXCEPT ![c] = Append(@, EOF)]
   /\ UNCHANGED <<cst, wire, pc, conn, mode, need, rclose, got, res, sends>>
 
